@@ -71,6 +71,12 @@ Definition check_call (o : op) (e : env) (pre : state) (ob : obs) : bool :=
                  | Some n => opt_bytes_eqb (ob_tlsclient ob) (Some n) && negb (verified pre) && negb (authed e pre) && ran_check (ob_log ob)
                  | None => false
                  end in
+  match o with
+  | OpFree =>
+      (* the end of a transaction forgets the certificate name and nothing else *)
+      opt_bytes_eqb (ob_tlsclient ob) None && Bool.eqb (ob_verified ob) (verified pre) && Z.eqb (ob_relay ob) (relay pre)
+      && match ob_log ob with [] => true | _ => false end && match ob_out ob with Ret 0 => true | _ => false end
+  | _ =>
   (* xmitstat.tlsclient changes only through an entitling certificate, and then the call reports success *)
   (opt_bytes_eqb (ob_tlsclient ob) (tlsclient pre) || (by_cert && is_one (ob_out ob)))
   (* the expensive check: not when ssl_verified was set; afterwards ssl_verified is set; ssl_verified is never cleared *)
@@ -81,7 +87,7 @@ Definition check_call (o : op) (e : env) (pre : state) (ob : obs) : bool :=
          (* tls_verify() > 0 exactly when it set xmitstat.tlsclient; it does not touch relayclient *)
          (negb (positive (ob_out ob)) || by_cert)
          && Z.eqb (ob_relay ob) (relay pre)
-     | OpIsAuth =>
+     | _ =>
          (* relayclient becomes 1 only by the relay list or by the certificate *)
          (negb (Z.eqb (ob_relay ob) 1) || Z.eqb (relay pre) 1
           || (Z.eqb (relay pre) 0 && Z.ltb 0 (e_ipbl e) && negb (authed e pre)) || by_cert)
@@ -89,7 +95,8 @@ Definition check_call (o : op) (e : env) (pre : state) (ob : obs) : bool :=
          && (negb (failed (ob_out ob)) || negb (Z.eqb (ob_relay ob) 1))
          (* success only for an authenticated client or with relayclient = 1 *)
          && (negb (positive (ob_out ob)) || (is_one (ob_out ob) && (authed e pre || Z.eqb (ob_relay ob) 1)))
-     end.
+     end
+  end.
 
 Fixpoint spec_ok_C01t (cs : list (op * env)) (pre : state) (obs_ : list obs) : bool :=
   match cs, obs_ with
